@@ -40,17 +40,16 @@ def main():
     meta = {"seed_id": sid, "property": prop, "worktree": wt, "ran": []}
     patch = open(os.path.join(wt, "patch.diff")).read()
     # make sure the change is applied
-    rc, st = sh("git status --short -- src", wt)
-    if not st.strip():
-        rc, out = sh("git apply patch.diff", wt); meta["ran"].append("git apply patch.diff -> %d" % rc)
+    sh("git checkout -- src", wt)
+    rc, out = sh("git apply patch.diff", wt); meta["ran"].append("git checkout -- src; git apply patch.diff -> %d" % rc)
     ok, out = build(wt); meta["builds_with_change"] = ok
     n, failed, out = tests(wt); meta["tests_passed_with_change"] = n; meta["tests_failed_with_change"] = failed
     meta["ran"].append("with change: cmake --build; ./_build/tests/tests -> %d passed%s" % (n, ", FAILURES" if failed else ""))
     rc_with, out_with = demo(wt); meta["demo_exit_with_change"] = rc_with; meta["demo_output_with_change"] = (out_with or "")[-800:]
     # without the change
-    sh("git stash push -q -- src", wt); ok2, _ = build(wt)
+    sh("git checkout -- src", wt); ok2, _ = build(wt)     # (git stash is shared between worktrees - never use it here)
     rc_without, out_without = demo(wt); meta["demo_exit_without_change"] = rc_without
-    sh("git stash pop -q", wt); build(wt)
+    sh("git apply patch.diff", wt); build(wt)
     try: os.unlink(os.path.join(wt, "demo_bin"))
     except OSError: pass
     meta["ran"].append("demo: exit %s with the change, exit %s without" % (rc_with, rc_without))
